@@ -138,11 +138,85 @@ RTP_VOID = ["rtp-unknown-ssrc-and-pt", "rtp-short", "rtp-bad-version", "rtp-ext-
             "rtcp-unknown-type", "rtcp-compound-mixed"]
 RTP_CHANGING = ["rtp-live-absurd-seq", "rtp-live-absurd-ts", "rtp-live-bad-codec-payload", "rtx-short", "rtcp-feedback-live",
                 "rtcp-remb-live-bad-fci", "rtcp-sr-live"]
+AUDIO = ["audio-empty-payload", "audio-one-byte-payload", "audio-garbage-payload", "audio-truncated-payload",
+         "audio-oversized-payload"]
 RAW = ["raw-random", "raw-empty", "raw-one-byte", "raw-truncated-ciphertext", "raw-bitflipped-ciphertext", "raw-dtls-like",
        "raw-srtp-like", "raw-stun-like"]
-ALL_CLASSES = SCTP_VOID + SCTP_CHANGING + RTP_VOID + RTP_CHANGING + RAW
+ALL_CLASSES = SCTP_VOID + SCTP_CHANGING + RTP_VOID + RTP_CHANGING + RAW + AUDIO
 
 VIDEO_SSRC, VIDEO_RTX_SSRC, V_SENDER_SSRC = 0x0A0B0C01, 0x0A0B0C02, 0x0D0E0F01
+AUDIO_SSRC = 0x0A0B0D01
+
+
+class BatonQueue:
+    """The decoder's input queue, with the real decoder_worker behind it in a real thread that runs only while the
+    event loop thread waits in put(): one item is decoded to completion, then the loop thread goes on.  Which thread
+    runs is therefore decided, not raced; what the worker posts to the loop (call_soon_threadsafe) lands in order."""
+
+    def __init__(self, *a, **kw):
+        import collections
+        import threading
+        self.items = collections.deque()
+        self.cv = threading.Condition()
+        self.idle = False
+        self.thread = None
+        self.died = None            # exception that ended the worker
+        self.put_after_death = 0
+
+    def get(self):                  # decoder thread
+        with self.cv:
+            self.idle = True
+            self.cv.notify_all()
+            while not self.items:
+                self.cv.wait()
+            self.idle = False
+            return self.items.popleft()
+
+    def put(self, item):            # event loop thread
+        with self.cv:
+            if self.thread is None or not self.thread.is_alive():
+                self.put_after_death += 1
+                return
+            self.items.append(item)
+            self.cv.notify_all()
+            while self.thread.is_alive() and not (self.idle and not self.items):
+                self.cv.wait(0.05)
+
+
+class BatonThread:
+    """threading.Thread for the decoder of a BatonQueue: the real target in a real thread, its death recorded."""
+
+    def __init__(self, target=None, name=None, args=(), kwargs=None):
+        import threading
+        self.queue = next((a for a in args if isinstance(a, BatonQueue)), None)
+
+        def run():
+            try:
+                target(*args, **(kwargs or {}))
+            except BaseException as exc:  # noqa
+                if self.queue is not None:
+                    self.queue.died = exc
+            finally:
+                if self.queue is not None:
+                    with self.queue.cv:
+                        self.queue.cv.notify_all()
+        self.t = threading.Thread(target=run, name=name, daemon=True)
+        if self.queue is not None:
+            self.queue.thread = self.t
+
+    def start(self):
+        self.t.start()
+        q = self.queue
+        if q is not None:
+            with q.cv:
+                while self.t.is_alive() and not q.idle:
+                    q.cv.wait(0.05)
+
+    def join(self, timeout=None):
+        self.t.join(timeout if timeout is not None else 5.0)
+
+    def is_alive(self):
+        return self.t.is_alive()
 
 
 def gen_hostile(ch, spec):
@@ -154,6 +228,8 @@ def gen_hostile(ch, spec):
     cfg["victim_is_sctp_server"] = ch.chance("cfg", 0.5)
     cfg["codec"] = ch.choice("cfg", ["VP8", "H264"])
     cfg["turn"] = fakes.gen_turn(ch, ["V"], chance=0.1)
+    # an audio stream next to the video one, with genuinely encoded frames and the real decoder behind the receiver
+    cfg["audio"] = ch.choice("cfg", [None, "opus", "opus", "PCMU", "PCMA"])
     # ordinary network faults on the genuine traffic towards the victim (class d)
     cfg["p2v"] = random_profile(ch, "cfg", intensity=ch.choice("cfg", [0.0, 0.05, 0.2])).to_json()
     cfg["p2v"]["base"] = cfg["base"]
@@ -219,9 +295,29 @@ class HostileWorld(MediaBase):
                     world.frames_tapped += 1
 
         class QueueMod:
-            Queue = TapQueue
+            @staticmethod
+            def Queue(*a, **kw):
+                # the audio receiver gets the real decoder worker behind a baton queue, the video receivers a tap
+                if world.next_queue == "baton":
+                    world.next_queue = None
+                    q = BatonQueue()
+                    world.audio_queue = q
+                    return q
+                return TapQueue()
 
-        self.rebind(rxmod, "threading", _FakeThreading)
+        class ThreadingMod:
+            @staticmethod
+            def Thread(target=None, name=None, args=(), kwargs=None):
+                if any(isinstance(a, BatonQueue) for a in args):
+                    return BatonThread(target=target, name=name, args=args, kwargs=kwargs)
+                return _FakeThreading.Thread()
+
+        self.next_queue = None
+        self.audio_queue = None
+        self.audio_decoded = 0
+        self.audio_seq = 0
+        self.audio_sent = 0
+        self.rebind(rxmod, "threading", ThreadingMod)
         self.rebind(rxmod, "queue", QueueMod)
         r32 = [VIDEO_SSRC, VIDEO_RTX_SSRC, 1000, V_SENDER_SSRC, V_SENDER_SSRC + 1, 5000]
         real_r32 = txmod.random32
@@ -299,6 +395,10 @@ class HostileWorld(MediaBase):
             except Exception:  # noqa
                 pass
             self.tool = None
+        q = getattr(self, "audio_queue", None)
+        if q is not None and q.thread is not None and q.thread.is_alive():
+            q.put(None)             # the worker's own end-of-stream marker
+            q.thread.join(2.0)
         super().cleanup()
 
     def wrap_handler(self, obj, name, label):
@@ -479,10 +579,76 @@ class HostileWorld(MediaBase):
                                         rtcp=RTCRtcpParameters(cname="sim", mux=True, ssrc=sender._ssrc),
                                         encodings=[RTCRtpEncodingParameters(ssrc=sender._ssrc, payloadType=96)])
 
+        if cfg.get("audio"):
+            await self.start_audio()
         await self.loop.create_task(self.v_receiver.receive(rparams(self.p_sender)), context=pair.ctx["V"])
         await self.loop.create_task(self.p_receiver.receive(rparams(self.v_sender)), context=pair.ctx["P"])
         await self.loop.create_task(self.p_sender.send(sparams(self.p_sender)), context=pair.ctx["P"])
         await self.loop.create_task(self.v_sender.send(sparams(self.v_sender)), context=pair.ctx["V"])
+
+    async def start_audio(self):
+        """P streams genuinely encoded audio to V; V's receiver decodes it with the real decoder worker."""
+        import fractions
+        import av
+        from aiortc.codecs import get_encoder
+        cfg, pair = self.cfg, self.pair
+        name = cfg["audio"]
+        if name == "opus":
+            codec = RTCRtpCodecParameters(mimeType="audio/opus", clockRate=48000, channels=2, payloadType=111)
+            rate, layout, n = 48000, "stereo", 960
+        else:
+            codec = RTCRtpCodecParameters(mimeType="audio/" + name, clockRate=8000, channels=1, payloadType=0 if name == "PCMU" else 8)
+            rate, layout, n = 8000, "mono", 160
+        self.audio_codec, self.audio_ts_step = codec, n
+        enc = get_encoder(codec)
+        self.audio_payloads = []
+        for i in range(8):
+            f = av.AudioFrame(format="s16", layout=layout, samples=n)
+            for pl in f.planes:
+                pl.update(bytes(((i * 37 + j * 11) & 0x3F) for j in range(pl.buffer_size)))
+            f.pts, f.sample_rate, f.time_base = i * n, rate, fractions.Fraction(1, rate)
+            payloads, _ = enc.encode(f)
+            self.audio_payloads += [bytes(x) for x in payloads]
+        self.next_queue = "baton"
+        self.a_receiver = pair.ctx["V"].run(rxmod.RTCRtpReceiver, "audio", pair.dtls["V"])
+        self.a_receiver._track = rxmod.RemoteStreamTrack(kind="audio")
+        world = self
+
+        class CountingQueue:                # the track's queue: decoded frames arrive here
+            def __init__(self):
+                self.n = 0
+
+            async def put(self, frame):
+                if frame is not None:
+                    world.audio_decoded += 1
+
+            def put_nowait(self, frame):
+                if frame is not None:
+                    world.audio_decoded += 1
+        self.a_receiver._track._queue = CountingQueue()
+        params = RTCRtpReceiveParameters(codecs=[codec], muxId="1", rtcp=RTCRtcpParameters(cname="sim", mux=True),
+                                         encodings=[RTCRtpDecodingParameters(ssrc=AUDIO_SSRC, payloadType=codec.payloadType)])
+        await self.loop.create_task(self.a_receiver.receive(params), context=pair.ctx["V"])
+        self.audio_seq = 100
+        self.audio_ts = 0
+        self.audio_task = self.loop.create_task(self.audio_sender(), context=pair.ctx["P"])
+
+    def audio_packet(self, payload):
+        self.audio_seq = (self.audio_seq + 1) & 0xFFFF
+        self.audio_ts = (self.audio_ts + self.audio_ts_step) & 0xFFFFFFFF
+        return struct.pack("!BBHLL", 0x80, self.audio_codec.payloadType, self.audio_seq, self.audio_ts, AUDIO_SSRC) + payload
+
+    async def audio_sender(self):
+        pair = self.pair
+        i = 0
+        while not self.dead and pair.dtls["P"].state == "connected":
+            try:
+                await pair.dtls["P"]._send_rtp(self.audio_packet(self.audio_payloads[i % len(self.audio_payloads)]))
+                self.audio_sent += 1
+            except Exception:  # noqa
+                return
+            i += 1
+            await asyncio.sleep(0.02)
 
     # -- the forging actor -------------------------------------------------------------------------
     def rng(self, k):
@@ -765,6 +931,28 @@ class HostileWorld(MediaBase):
             self.log.add("inject", cls, len(data))
             self.fabric.loop.call_soon(self.vconn.inject, data, context=pair.ctx["V"])
             return
+        if cls in AUDIO:
+            if not getattr(self, "audio_codec", None) or self.dead:
+                self.probes["audio_class_without_audio_stream"] += 1
+                return
+            r = self.rng(k)
+            good = self.audio_payloads[r.randrange(len(self.audio_payloads))]
+            payload = {"audio-empty-payload": b"",
+                       "audio-one-byte-payload": bytes([r.randrange(256)]),
+                       "audio-garbage-payload": bytes(r.randrange(256) for _ in range(r.choice([2, 10, 80, 400]))),
+                       "audio-truncated-payload": good[:max(1, r.randrange(len(good)))],
+                       "audio-oversized-payload": good + bytes(r.randrange(256) for _ in range(r.choice([1, 7, 900])))}[cls]
+            # the next packet of the live audio stream, from the authenticated peer, with a nonsensical codec payload
+            data = self.audio_packet(payload)
+            self.log.add("inject", cls, len(data))
+            self.forged[data] = cls
+            self.audio_forged = getattr(self, "audio_forged", 0) + 1
+            try:
+                await self.loop.create_task(pair.dtls["P"]._send_rtp(data), context=pair.ctx["P"])
+            except Exception:  # noqa
+                self.forged.pop(data, None)
+                self.probes["inject_send_failed"] += 1
+            return
         if cls in SCTP_VOID or cls in SCTP_CHANGING:
             self._borrowed_tsn = False
             data, changing = self.build_sctp(cls, k)
@@ -881,6 +1069,13 @@ class HostileWorld(MediaBase):
                 self.dead = "task"
                 self.violation("C05", "task-died:%s:%s" % (name.replace(" ", "-"), exc_tag(t.exception())), repr(t.exception()))
                 return
+        q = getattr(self, "audio_queue", None)
+        if q is not None and q.thread is not None and not q.thread.is_alive() and not getattr(self, "_audio_stopped", False):
+            self.dead = "decoder"
+            self.violation("C05", "decoder-thread-died:%s:%s" % (self.cfg.get("audio"), type(q.died).__name__ if q.died else "?"),
+                           "%s: the audio decoder thread ended with %r after %d forged audio packets; %d frames were offered to it "
+                           "afterwards" % (when, q.died, getattr(self, "audio_forged", 0), q.put_after_death))
+            return
         for u in self.loop.unhandled:
             e = u.get("exc")
             if e is not None and exc_tag(e).split("@")[1] != "?":
@@ -921,6 +1116,18 @@ class HostileWorld(MediaBase):
                                "after only void datagrams: %d frames in 60 s" % (self.frames_tapped - n0))
                 return
             self.probes["final_media_flowing"] += 1
+        if getattr(self, "audio_codec", None) and not self.dead:
+            # genuine audio keeps flowing all along: after whatever was forged it is still decoded
+            n0, s0 = self.audio_decoded, self.audio_sent
+            await self.wait(lambda: self.audio_decoded >= n0 + 10, 30.0)
+            if self.audio_decoded < n0 + 10:
+                self.check_alive("after the final round trip")
+                if not self.dead:
+                    self.violation("C05", "valid-traffic-stalled:audio-no-longer-decoded:%s" % self.cfg.get("audio"),
+                                   "%d genuine audio packets sent in the last 30 s, %d frames decoded (%d forged audio packets before)" % (
+                                       self.audio_sent - s0, self.audio_decoded - n0, getattr(self, "audio_forged", 0)))
+                return
+            self.probes["final_audio_decoded"] += 1
         self.check_alive("after the final round trip")
 
     async def wait(self, pred, bound):
